@@ -21,7 +21,7 @@ XMI_TYPE = "{http://www.omg.org/XMI}type"
 XMI_ID = "{http://www.omg.org/XMI}id"
 LINK_RE = re.compile(r"^(?:(?:(?:([^ #]+) )?([^ #]+))?#)?([A-Za-z0-9_-]+)$")   # independent copy of the documented syntax
 
-NAMES = ["a", "b c", "d%e", "é", "x.capella", "ü ö", "p+q", "m&n", "100%", "~t", "u,v", "(w)", "日本"]
+NAMES = ["a", "b c", "d%e", "é", "x.capella", "ü ö", "p+q", "m&n", "100%", "~t", "u,v", "(w)", "日本", "t~ilde", "a-b_c.d", "q!r", "s*t", "it's", "k;l=m", "at@x", "c:d"]
 
 
 def b(s: str) -> bytes:
@@ -54,6 +54,15 @@ def oracle_expected_link(from_frag: pathlib.PurePosixPath, to_frag: pathlib.Pure
     return f"{link}#{{id}}"
 
 
+_name_cycle = [0]
+
+
+def next_name(rng):
+    """every awkward name is used in turn, so each occurs in some layout of every run"""
+    _name_cycle[0] += 1
+    return NAMES[_name_cycle[0] % len(NAMES)]
+
+
 def gen_layout(rng, keys: list[pathlib.PurePosixPath]) -> dict:
     """new fragment paths for the loaded trees: depth 0-4, '..'-climb distances 0-4, awkward names; suffix kept"""
     out = {}
@@ -61,8 +70,8 @@ def gen_layout(rng, keys: list[pathlib.PurePosixPath]) -> dict:
     for k in keys:
         while True:
             depth = rng.randint(0, 4)
-            dirs = [rng.choice(NAMES[:9] + ["sub", "frag"]) for _ in range(depth)]
-            name = rng.choice(NAMES) + k.suffix
+            dirs = [(next_name(rng) if rng.random() < 0.5 else rng.choice(["sub", "frag", "a"])) for _ in range(depth)]
+            name = next_name(rng) + k.suffix
             p = pathlib.PurePosixPath(k.parts[0], *dirs, name)
             if p not in used and not any(str(u).startswith(str(p) + "/") or str(p).startswith(str(u) + "/") for u in used):
                 used.add(p)
@@ -134,7 +143,7 @@ def run(chk: lib.Check):
         cap = 70 if quick else 300
         if len(sample) > cap:
             sample = rng.sample(sample, cap)
-        layouts = [None] + [gen_layout(rng, keys) for _ in range(2 if quick else 12)]
+        layouts = [None] + [gen_layout(rng, keys) for _ in range(4 if quick else 16)]
         for layout in layouts:
             if layout is not None:
                 loader.trees = {layout[k]: t for k, t in orig_trees.items()}
@@ -240,6 +249,10 @@ def run(chk: lib.Check):
         split_cases = rng.sample(split_cases, 3000 if quick else 40000)
     chk.correspond(imports, "w_split_links", split_cases, tag="C05_split")
     cand = set(toks) | {c[0].decode("utf-8", "replace") for c in split_cases[:400]} | {"", "#", " #a", "a #b", "x y z#w", "a#b#c", "a\n", "#a\n", "ä#b", "x y#z-_9"}
+    for c in range(33, 127):
+        ch = chr(c)
+        cand |= {f"a{ch}b.capella#u1", f"t:X f{ch}g#u2", f"t{ch}Y f.capella#u3", f"{ch}#u4", f"#u{ch}5", f"x{ch}"}
+    cand |= {"é.capella#z", "t:X é/ü.capella#z", "dir/(1)/f~1.capella#u", "a\tb#u", "a\u00a0b#u"}
     for s in sorted(cand):
         m = helpers.CROSS_FRAGMENT_LINK.fullmatch(s)
         parse_cases.append((b(s), None if not m else [b(g) if g is not None else None for g in m.groups()]))
